@@ -43,12 +43,24 @@ def _raising_if_nodes(g: C.CFG, pred) -> List[int]:
     return out
 
 
-def _is_arity_test(t: ast.AST) -> bool:
-    if not isinstance(t, ast.Compare) or len(t.ops) != 1 or not isinstance(t.ops[0], (ast.NotEq, ast.Eq, ast.Lt, ast.Gt)):
+def _is_arity_test(t: ast.AST, p=None) -> bool:
+    """len(<argument tokens>) compared with len(<declared signature>), also through locals and under `not`"""
+    while isinstance(t, ast.UnaryOp) and isinstance(t.op, ast.Not):
+        t = t.operand
+    if not isinstance(t, ast.Compare) or len(t.ops) != 1 or not isinstance(t.ops[0], (ast.NotEq, ast.Eq, ast.Lt, ast.Gt, ast.LtE, ast.GtE)):
         return False
     sides = [t.left, t.comparators[0]]
-    lens = [s for s in sides if isinstance(s, ast.Call) and callee_name(s) == "len"]
-    return len(lens) == 2 and any("signature" in ast.unparse(s) for s in lens)
+    if p is None:
+        lens = [s_ for s_ in sides if isinstance(s_, ast.Call) and callee_name(s_) == "len"]
+        return len(lens) == 2 and any("signature" in ast.unparse(s_) for s_ in lens)
+    try:
+        trs = [p.trace(s_) for s_ in sides]
+    except KeyError:
+        return False
+    is_len = [bool(tr) and all(x[-1] == "arg0:len" for x in tr) for tr in trs]
+    sig = [any("attr:signature" in x for x in tr) for tr in trs]
+    tok = [any(x[0].startswith("param:") and any(st.startswith("slice:1") for st in x) for x in tr) for tr in trs]
+    return all(is_len) and ((sig[0] and tok[1]) or (sig[1] and tok[0]))
 
 
 def _subtype_check_nodes(repo: Repo, f: FuncInfo, g: C.CFG, depth: int = 0) -> List[int]:
@@ -89,14 +101,14 @@ def rule_validators(repo: Repo, rid: str = "C05.validators", cls: str = "Problem
     r = RuleResult(rid, "every ground atom / fluent passes an arity check, a per-argument subtype check and an object lookup before it is returned",
                    "wrong arity, undeclared objects, non-conforming types and undeclared functions are rejected")
     for meth, is_fluent in (("parse_grounded_predicate", False), ("parse_grounded_numeric_fluent", True)):
-        f = repo.func(f"{cls}.{meth}")
+        f = L.fn(repo, f"{cls}.{meth}")
         g = C.cfg_of(f.node)
         dom = C.dominators(g)
         p = L.prov(repo, f)
         rets = [n for n in g.nodes() if g.kind[n] == "return"]
         # (a) arity
         r.site(f"{f.qn} [arity]")
-        ar = _raising_if_nodes(g, _is_arity_test)
+        ar = _raising_if_nodes(g, lambda t: _is_arity_test(t, p))
         if _dominated(g, dom, rets, ar):
             r.ok({"function": f.qn, "arity_check_dominates_return": True})
         else:
@@ -117,12 +129,18 @@ def rule_validators(repo: Repo, rid: str = "C05.validators", cls: str = "Problem
             r.fail(Finding(rid, f, "missing:object-lookup", "the arguments are not looked up in problem objects + domain constants: undeclared objects are accepted"))
         if is_fluent:
             r.site(f"{f.qn} [function name]")
-            nm = _raising_if_nodes(g, lambda t: isinstance(t, ast.Compare) and isinstance(t.ops[0], (ast.In, ast.NotIn)) and "functions" in ast.unparse(t.comparators[0]))
+            def _functions_map(e) -> bool:
+                try:
+                    return any(x[-1] == "attr:functions" for x in p.trace(e))
+                except KeyError:
+                    return False
+
+            nm = _raising_if_nodes(g, lambda t: isinstance(t, ast.Compare) and isinstance(t.ops[0], (ast.In, ast.NotIn)) and _functions_map(t.comparators[0]))
             implicit = []
             for n in g.nodes():
                 st = g.stmt[n]
                 h = C.header(st) if st is not None else None
-                if h is not None and any(isinstance(x, ast.Subscript) and ast.unparse(x.value).endswith(".functions") for x in ast.walk(h)):
+                if h is not None and any(isinstance(x, ast.Subscript) and isinstance(x.ctx, ast.Load) and _functions_map(x.value) for x in ast.walk(h)):
                     implicit.append(n)
             if _dominated(g, dom, rets, nm + implicit):
                 r.ok({"function": f.qn, "function_name_checked": "assert / lookup in domain.functions"})
@@ -225,29 +243,37 @@ def rule_sections(repo: Repo) -> RuleResult:
     return r
 
 
+def _into(p, e: ast.AST, attr: str) -> bool:
+    """the expression denotes (a part of) the container stored in the field `attr`"""
+    try:
+        return any(f"attr:{attr}" in x for x in p.trace(e))
+    except KeyError:
+        return False
+
+
 def rule_goal(repo: Repo) -> RuleResult:
     r = RuleResult("C05.goal", "goal literals go through the same validator as initial facts; numeric goals become expression trees; both are stored",
                    "exactly the goal literals and numeric goal conditions")
-    f = repo.func("ProblemParser.parse_goal_state")
+    f = L.fn(repo, "ProblemParser.parse_goal_state")
     p = L.prov(repo, f)
     r.site(f.qn + " [literals]")
-    apps = [c for c in L.calls_in(f.node) if isinstance(c.func, ast.Attribute) and c.func.attr in ("append", "add") and "goal_state_predicates" in ast.unparse(c.func.value)]
+    apps = [c for c in L.calls_in(f.node) if isinstance(c.func, ast.Attribute) and c.func.attr in ("append", "add") and _into(p, c.func.value, "goal_state_predicates")]
     ok = any(any(any(s.endswith("parse_grounded_predicate") for s in x) for x in p.trace(c.args[0])) for c in apps if c.args)
     if ok:
         r.ok({"goal_literals": "parse_grounded_predicate -> goal_state_predicates"})
     else:
         r.fail(Finding("C05.goal", f, "goal-literal-path", "goal literals are not validated by parse_grounded_predicate before being stored"))
     r.site(f.qn + " [numeric]")
-    adds = [c for c in L.calls_in(f.node) if isinstance(c.func, ast.Attribute) and c.func.attr in ("append", "add") and "goal_state_fluents" in ast.unparse(c.func.value)]
+    adds = [c for c in L.calls_in(f.node) if isinstance(c.func, ast.Attribute) and c.func.attr in ("append", "add") and _into(p, c.func.value, "goal_state_fluents")]
     ok = any(any(any(s.endswith("construct_expression_tree") for s in x) for x in p.trace(c.args[0])) for c in adds if c.args)
     if ok:
         r.ok({"numeric_goals": "construct_expression_tree -> goal_state_fluents"})
     else:
         r.fail(Finding("C05.goal", f, "numeric-goal-path", "numeric goal conditions are not stored as expression trees"))
     r.site(f.qn + " [initial facts]")
-    g = repo.func("ProblemParser.parse_state_component")
+    g = L.fn(repo, "ProblemParser.parse_state_component")
     pg = L.prov(repo, g)
-    adds = [c for c in L.calls_in(g.node) if isinstance(c.func, ast.Attribute) and c.func.attr in ("append", "add") and "initial_state_predicates" in ast.unparse(c.func.value)]
+    adds = [c for c in L.calls_in(g.node) if isinstance(c.func, ast.Attribute) and c.func.attr in ("append", "add") and _into(pg, c.func.value, "initial_state_predicates")]
     ok = any(any(any(s.endswith("parse_grounded_predicate") for s in x) for x in pg.trace(c.args[0])) for c in adds if c.args)
     if ok:
         r.ok({"initial_facts": "parse_grounded_predicate -> initial_state_predicates"})
@@ -260,19 +286,19 @@ def rule_goal(repo: Repo) -> RuleResult:
 def rule_value(repo: Repo, rid: str = "C05.value", spec: str = "ProblemParser.parse_state_component", store_attr: str = "initial_state_fluents") -> RuleResult:
     r = RuleResult(rid, "the fluent value is float(third item), set on the parsed fluent, which is stored under its ground name",
                    "exactly the listed fluent values")
-    f = repo.func(spec)
+    f = L.fn(repo, spec)
     p = L.prov(repo, f)
     r.site(f.qn + " [value]")
     sv = [c for c in L.calls_in(f.node) if callee_name(c) == "set_value" and c.args]
-    okv = any(any(x[0].startswith("param:") and "item:2" in x and "arg0:float" in x for x in p.trace(c.args[0])) and
-              any(any(s.endswith("parse_grounded_numeric_fluent") for s in x) and any("item:1" in x for x in p.trace(c.func.value)) for x in p.trace(c.func.value))
+    okv = any(any(x[0].startswith("param:") and L.has_pos(x, 2) and "arg0:float" in x for x in p.trace(c.args[0])) and
+              any(any(s.endswith("parse_grounded_numeric_fluent") for s in x) and any(L.has_pos(x, 1) for x in p.trace(c.func.value)) for x in p.trace(c.func.value))
               for c in sv)
     if okv:
         r.ok({"value": "float(expression[2])", "fluent": "parse_grounded_numeric_fluent(expression[1])"})
     else:
         r.fail(Finding(rid, f, "fluent-value", "the fluent value does not come from float(<third item>) / the fluent from the second item"))
     r.site(f.qn + " [store]")
-    stores = [n for n in ast.walk(f.node) if isinstance(n, ast.Assign) and any(isinstance(t, ast.Subscript) and store_attr in ast.unparse(t.value) for t in n.targets)]
+    stores = [n for n in ast.walk(f.node) if isinstance(n, ast.Assign) and any(isinstance(t, ast.Subscript) and _into(p, t.value, store_attr) for t in n.targets)]
     oks = False
     for s in stores:
         t = [t for t in s.targets if isinstance(t, ast.Subscript)][0]
